@@ -68,6 +68,21 @@ def directed_cases(seed: int, tier: str) -> typing.List[dict]:
         out.append({"label": "directed-each-dimension-%s" % lang, "dsdl_seed": [seed, PROP, "directed", li % 2], "lang": lang, "each_dim": True})
     for li, (lang, tpl) in enumerate([("py", "introspect"), ("html", "introspect"), ("cpp", "builtin_copy"), ("c", "introspect")]):
         out.append({"label": "directed-each-dimension-%s-%s" % (lang, tpl), "dsdl_seed": [seed, PROP, "directed", li % 2], "lang": lang, "each_dim": True, "templates": tpl})
+    # sibling namespaces whose types embed each other's types, under every hash seed (py pickles the model: the order in which
+    # types are rendered must not depend on the hash seed)
+    siblings = {
+        "roots": ["ns"],
+        "files": {
+            "ns/alpha/A.1.0.dsdl": "uint8 a\nuint16[<=3] b\n@sealed\n",
+            "ns/bravo/B.1.0.dsdl": "ns.alpha.A.1.0 a\nuint8[<=5] c\n@sealed\n",
+            "ns/charlie/C.1.0.dsdl": "ns.bravo.B.1.0[<=2] bs\nns.alpha.A.1.0 a\n@extent 128 * 8\n",
+            "ns/delta/deep/D.1.0.dsdl": "ns.charlie.C.1.0 c\nns.bravo.B.1.0 b\n@sealed\n",
+            "ns/echo/E.1.0.dsdl": "@union\nns.alpha.A.1.0 a\nns.delta.deep.D.1.0 d\n@sealed\n",
+            "ns/T.1.0.dsdl": "ns.echo.E.1.0 e\nns.alpha.A.1.0 a\n@sealed\n",
+        },
+    }
+    for lang in ("py", "c"):
+        out.append({"label": "directed-sibling-namespaces-every-hash-seed-%s" % lang, "dsdl": siblings, "opts": {"lang": lang, "root": "ns", "lookups": []}, "worlds": [{"hash_seed": hv} for hv in HASH_SEED_VALUES] + [{"enum": 12345}, {"hash_seed": HASH_SEED_VALUES[1], "enum": 99}]})
     return out
 
 
